@@ -26,6 +26,7 @@ from .world import World
 
 MH_TO_IMAP = {"replied": "\\Answered", "flagged": "\\Flagged", "Deleted": "\\Deleted", "Draft": "\\Draft",
               "Seen": "\\Seen"}
+MH_COLLIDE = {"Seen", "unseen", "Recent", "replied", "Deleted", "Draft", "flagged"}
 SUBJ = "BODY.PEEK[HEADER.FIELDS (SUBJECT)]"
 SUBJ_KEY = "BODY[HEADER.FIELDS (SUBJECT)]"
 
@@ -67,6 +68,7 @@ class HState:
         self.announced: dict = {}  # mailbox -> highest uid the server has shown to know
         self.pre_model = None
         self.silent_uids: dict = {}
+        self.taint = ""
         self.flag_cache: dict = {}  # session -> {uid: last FLAGS it was sent}
         self.cmd_reported: dict = {}  # session -> uids whose flags were sent since the last check
         import asimap.mbox as _mb
@@ -80,6 +82,8 @@ class HState:
 
     # -- failure bookkeeping ------------------------------------------------------------------
     def fail(self, rule: str, details: dict, expected=None, observed=None):
+        if self.taint and rule.startswith(("C04.", "C13.mh-flags")):
+            details = dict(details, taint=self.taint)
         self.failures.append(
             Failure(rule.split(".")[0], rule, details,
                     {"driver": self.cfg.get("driver", "h"), "cfg": self.cfg.get("name"), "history": list(self.history),
@@ -109,6 +113,8 @@ class HState:
         if r.kind != "untagged":
             return
         mb = self.model.mboxes.get(ms.selected) if ms.selected else None
+        if ms.selected is None and not (cur and cur.get("kind") in ("select", "examine")):
+            return  # C01 speaks about selected sessions
         if r.typ == "EXISTS":
             if cur and cur.get("kind") in ("select", "examine"):
                 return  # the SELECT snapshot: view is set by the driver from the model
@@ -185,6 +191,7 @@ class HState:
             self.model.session(sn).dead = True
             return None, []
         self.cur_cmd[sn] = {"kind": kind, "uid": uid, "pre_flags": pre_flags}
+        snap = self._snap() if self.cfg.get("snapshot_refused") else None
         shown = text if isinstance(text, str) else text[:100].decode("latin-1")
         self.log(f"C[{sn}]: {shown}")
         t0 = self.w.loop.time()
@@ -202,7 +209,24 @@ class HState:
         if s.task.done():
             self.model.session(sn).dead = True
         self._check_reported(sn, kind)
+        if snap is not None and r is not None and r.typ in ("NO", "BAD"):
+            after = self._snap()
+            if after != snap:
+                diff = sorted(k for k in set(snap) | set(after) if snap.get(k) != after.get(k))
+                self.fail("C05.refused-but-changed", {"cmd": kind, "uid": uid, "what": [d.split(":")[0] for d in diff][:3]},
+                          None, diff[:10])
         return r, resps
+
+    def _snap(self) -> dict:
+        """Disk tree of the maildir + DB rows minus timestamps, flattened."""
+        out = {}
+        for k, v in self.w.snapshot_tree("mail").items():
+            out["disk:" + k] = v
+        for t, rows in self.w.db_dump().items():
+            for i, row in enumerate(rows):
+                row = {k: v for k, v in row.items() if k not in ("mtime",)}
+                out[f"db:{t}:{i}"] = repr(sorted(row.items()))
+        return out
 
     def _check_reported(self, sn: str, where: str, whole_cache: bool = False):
         """The last FLAGS value sent to a session for a message must be the current one."""
@@ -501,6 +525,8 @@ class HState:
         sn, uid = ev["s"], ev.get("uid", False)
         setstr = self._which(sn, ev["set"], uid)
         mode, flags, silent = ev.get("mode", "+"), ev["flags"], ev.get("silent", False)
+        if set(flags.split()) & MH_COLLIDE:
+            self.taint = "keyword-equals-MH-sequence-name"
         elems = parse_set(setstr)
         ms = self.model.session(sn)
         refusal_ok = self._refusal_ok(sn, uid, elems)
@@ -550,13 +576,16 @@ class HState:
                         it = fetch_items(x)
                     except Exception:
                         continue
-                    if "UID" in it or SUBJ_KEY in it or "BODY[]" in it:
+                    data_keys = [k for k in it if k.startswith("BODY[") or k.startswith("RFC822")]
+                    if "UID" in it or data_keys:
                         got.add(view0[x.num - 1])
-                        cid = msgs.cid_of(it.get(SUBJ_KEY) or it.get("BODY[]"))
+                        cid = None
+                        for k in data_keys:
+                            cid = cid or msgs.cid_of(it.get(k))
                         if cid and mbm is not None:
                             self.reveal(mbm.name, mbm.vv, view0[x.num - 1] if "UID" not in it else int(it["UID"]), cid, "FETCH")
             want = {m.uid for m in tgt}
-            if ("UID" in items or "BODY" in items) and got != want:
+            if ("UID" in items or "BODY" in items or "RFC822" in items) and got != want:
                 self.fail("C03.fetch-addresses", {"uid": uid, "set": ev["set"]}, sorted(want), sorted(got))
         self.idle_quiescent_checks()
 
@@ -875,11 +904,10 @@ class HState:
             for k in keys:
                 with open(os.path.join(path, str(k)), "rb") as f:
                     cids[k] = msgs.cid_of(f.read())
-            by_cid = {m.cid: m for m in mb.msgs}
-            for k in keys:
-                m = by_cid.get(cids[k])
-                if m is None:
-                    continue
+            skeys = sorted(keys)
+            if [cids[k] for k in skeys] != [m.cid for m in mb.msgs]:
+                continue  # message list itself differs: reported by the multiset/uid rules
+            for k, m in zip(skeys, mb.msgs):
                 fl = set()
                 for sname, members in seqs.items():
                     if k in members and sname not in ("unseen", "Recent"):
